@@ -87,6 +87,18 @@ func VerifC01_DecoratorConvergence() {
 		w.Srv.Put("configmaps", c)
 	}
 
+	// an object of the attachment kind that the TARGET controls but the decorator
+	// did not make (what the target's own controller creates: the Pods of a
+	// StatefulSet that is being decorated): it carries no decorator marker, is
+	// not an attachment, and is neither shown to the hook nor deleted
+	sibling := rt.Bool("target-controls-an-object-the-decorator-did-not-make")
+	if sibling {
+		rt.Cover("convergence/targets-own-object")
+		o := env.ConfigMap("ns", "made-by-the-targets-controller", "usib", "theirs")
+		env.AddOwnerRef(o, env.OwnerRefMap(target.GetAPIVersion(), target.GetKind(), "p", "puid", true))
+		w.Srv.Put("configmaps", o)
+	}
+
 	d := verifNewDC(w, verifDCConfig{FinalizeEnabled: finEnabled, Sync: sync, Finalize: fin,
 		Attachments: []verifDCAttachment{{Res: env.ConfigMapRes, Method: method}}})
 
@@ -123,6 +135,20 @@ func VerifC01_DecoratorConvergence() {
 	if writes[0] == 0 {
 		rt.Cover("convergence/already-converged")
 		rt.Assert(writes[1] == 0, "convergence/write-after-a-quiet-sync")
+	}
+
+	if sibling {
+		o := w.Srv.Peek("configmaps", "ns", "made-by-the-targets-controller")
+		rt.Assert(o != nil, "convergence/object-of-the-targets-own-controller-deleted")
+		if o != nil {
+			rt.Assert(o.GetResourceVersion() == "7", "convergence/object-of-the-targets-own-controller-modified")
+		}
+		for _, call := range append(append([]*v1.DecoratorHookRequest{}, sync.Calls...), fin.Calls...) {
+			for _, group := range call.Attachments {
+				_, shown := group["made-by-the-targets-controller"]
+				rt.Assert(!shown, "convergence/object-of-the-targets-own-controller-shown-to-the-hook")
+			}
+		}
 	}
 
 	// ---- the fixpoint ----
